@@ -38,6 +38,27 @@ class Scenario:
                 self.counter += 1
                 return self.counter
             src = Stream.from_periodic(cb, poll_interval=cfg["poll"], asynchronous=True, loop=IOLoop.current())
+        elif k in ("custom_gen", "custom_future"):
+            # a user-defined source whose run() is not a native coroutine (documented: "override this method directly"):
+            # a tornado generator coroutine / a plain function returning a Future that wraps one -- polling like from_periodic
+            from streamz.sources import Source
+            from tornado import gen
+            scen, poll = self, cfg["poll"]
+
+            class Ticker(Source):
+                @gen.coroutine
+                def _loop(self):
+                    while not self.stopped:
+                        scen.counter += 1
+                        yield self._emit(scen.counter)
+                        yield gen.sleep(poll)
+
+                if k == "custom_gen":
+                    run = _loop
+                else:
+                    def run(self):
+                        return gen.convert_yielded(self._loop())
+            src = Ticker(asynchronous=True, loop=IOLoop.current())
         elif k == "iterable":
             src = Stream.from_iterable(iter(range(1, cfg["ni"] + 1)), asynchronous=True, loop=IOLoop.current())
         elif k == "iterable_list":
